@@ -1752,6 +1752,26 @@ class LocalAliasRead(Base):
       s.o @= t
 
 
+# ------------------------------------------------------------------ constants of the same name from two Python modules
+from vt.stmtfam_other import OtherModuleBase
+GK = 9
+GT = [7, 8, 9, 10]
+
+
+@design(lambda st, a, b, sel, en, reset: (None, {"o": (a + 5) & M8, "q": (b + 2) & M8, "p": (a + 9) & M8, "r": (b + 8) & M8}))
+class GlobalsOfTwoModules(OtherModuleBase):
+  """the base class (another file) and the subclass each use their own module-level GK / GT"""
+  def construct(s):
+    super().construct()
+    s.p = OutPort(Bits8)
+    s.r = OutPort(Bits8)
+
+    @update
+    def up_g2m():
+      s.p @= s.a + GK
+      s.r @= s.b + GT[1]
+
+
 def sequences():
   """input sequences (lists of dicts): one long deterministic walk covering every (sel, en) with varied a, b; reset pulses inside"""
   A = (0, 1, 0x5A, 0xFF, 0x80, 0x0F, 0x37)
